@@ -640,6 +640,28 @@ def esc_semi(expr):
     return expr.replace(";", ";;")
 
 
+def gen_dependent_expr(rng, name, key=None):
+    """an expression whose value is computed from the variable `name` (used for the later parts of a multi-part
+    statement that read what an earlier part of the SAME statement has just bound)"""
+    key = key or rng.choice(ITEM_KEYS + ["0", "1", "fn", "seq"])
+    r = rng.random()
+    if r < 0.22:
+        return name
+    if r < 0.42:
+        return "%s/%s" % (name, key)
+    if r < 0.54:
+        return "%s/%s | %s | string:none" % (name, key, name)
+    if r < 0.64:
+        return "%s | string:none" % name
+    if r < 0.78:
+        return rng.choice(["string:[${%s}]", "string:$%s !", "string:${%s/0 | %s}" % ("%s", name)]) % name
+    if r < 0.86:
+        return "not:" + name
+    if r < 0.94:
+        return "exists:" + name
+    return "nocall:" + name
+
+
 # ----------------------------------------------------------------------------
 # TAL templates
 # ----------------------------------------------------------------------------
@@ -702,11 +724,16 @@ def gen_element(rng, sc, opts, depth, in_macro=False, in_fill=False, allow_macro
         # every subset of the six commands (content|replace exclusive)
         if rng.random() < 0.35:
             stmts = []
+            defined_here = []
             for _ in range(rng.choice([1, 1, 2, 3])):
                 name = rng.choice(["v1", "v2", "x", "y", "loc", "s1", "g1", "g2"])
                 kind = rng.choice(["", "", "local ", "global "])
                 ex = gen_expr(rng, sc if not stmts else inner, None, 0, opts.py)
+                if stmts and rng.random() < 0.4:
+                    # a later definition that is computed from a variable bound EARLIER IN THIS SAME statement
+                    ex = gen_dependent_expr(rng, rng.choice(defined_here))
                 stmts.append("%s%s %s" % (kind, name, esc_semi(ex)))
+                defined_here.append(name)
                 if kind != "global ":
                     if name not in inner.names:
                         inner.names.append(name)
@@ -843,7 +870,102 @@ def _probe(rng, expr_pool):
     return Elem("s", tal={"content": "string:[${%s}]" % ex if "}" not in ex else ex}, children=[Text("-")])
 
 
+CHAIN_SOURCES = [
+    # (expression of the first definition, steps that lead further down from its value, is the value a sequence?)
+    ("d3", ["fn", None], False), ("d3", ["seq", "0", None], False), ("d3/seq", ["1", None], True), ("m1", ["0", None], True),
+    ("m2", ["1", None], True), ("f2", [None], False), ("cv2", [None], False), ("d3/fn", [None], False), ("l1", ["0"], True),
+    ("d1", ["k"], False), ("d2", ["name"], False), ("s1", [], False), ("s2", ["0"], False), ("n1", [], False), ("l2", ["1", "0"], True),
+    ("string:abc", ["1"], False), ("nope | m1", ["0", None], True), ("nothing", [], False),
+]
+
+
+def gen_define_chain(rng, opts):
+    """Several definitions in ONE tal:define whose later parts are computed from variables bound by EARLIER parts of the same
+    statement (TAL: the definitions of a statement are executed in order, each one sees the previous ones) — local / global
+    mixes, the first name fresh or shadowing a context variable / a variable of an enclosing define / an enclosing loop
+    variable (also self-referring: `d d/sub; t d/k`), a name defined twice.  The same element's condition / repeat /
+    content|replace / attributes / omit-tag and its children read the chain; probes after the element read the names again
+    (the enclosing bindings are back, global definitions stay)."""
+    key = rng.choice(ITEM_KEYS)
+    src, steps, is_seq = rng.choice(CHAIN_SOURCES)
+    steps = [key if st is None else st for st in steps]
+    fresh = rng.sample(["x", "y", "loc", "d9", "t9", "w", "v1", "g2"], 6)
+    mode = rng.choice(["fresh", "fresh", "context", "context", "self", "self", "outer-define", "outer-define", "outer-repeat",
+                       "outer-repeat", "twice"])
+    root = src.split("/")[0]
+    first_expr = src
+    n0 = fresh.pop()
+    seq_name = None
+    if mode == "self" and steps and root in CTX_NAMES:
+        # the first definition re-binds the very name it reads: `d3 d3/fn; t d3/k`
+        n0 = root
+        first_expr = src + "/" + steps[0]
+        steps = steps[1:]
+    elif mode == "context":
+        n0 = rng.choice([c for c in ["s1", "s2", "d1", "d2", "v1", "l1", "n1", "m1", "m2", "f2", "t1"] if c != root])
+    if n0 != root and is_seq and mode != "self":
+        seq_name = n0
+    kind = lambda: rng.choice(["", "", "local ", "local ", "global "])
+    parts = [(kind(), n0, first_expr)]
+    names = [n0]
+    prev = n0
+    for st in steps:
+        nm = fresh.pop()
+        parts.append((kind(), nm, "%s/%s" % (prev, st) if rng.random() < 0.8 else "%s/%s | %s" % (prev, st, prev)))
+        names.append(nm)
+        prev = nm
+    if mode == "twice":
+        parts.append((kind(), n0, rng.choice(["string:(${%s})" % n0, "%s | string:none" % prev, "exists:" + n0])))
+    for _ in range(rng.choice([0, 1, 1, 2]) + (1 if len(parts) == 1 else 0)):
+        nm = fresh.pop()
+        parts.append((kind(), nm, gen_dependent_expr(rng, rng.choice(names), key)))
+        names.append(nm)
+    last = names[-1]
+    tal = {"define": rng.choice(["; ", ";", " ;  "]).join("%s%s %s" % (k, n, esc_semi(e)) for k, n, e in parts)}
+    if rng.random() < 0.25:
+        tal["condition"] = rng.choice(["exists:" + last, "%s | string:1" % names[0], "not:nope", last])
+    loopvar = None
+    if seq_name is not None and rng.random() < 0.5:
+        loopvar = rng.choice(["i", "row", last, names[0]])
+        tal["repeat"] = "%s %s" % (loopvar, seq_name)
+    if rng.random() < 0.5:
+        tal[rng.choice(["content", "content", "replace"])] = rng.choice(
+            ["%s | string:none" % last, "string:${%s}:${%s}" % (names[0], last), last, "%s/%s | %s | string:none" % (last, key, last)])
+    if rng.random() < 0.5:
+        # a later attribute definition that reads `attrs`: still the ORIGINAL attribute, whatever an earlier part made of it
+        tal["attributes"] = "; ".join(["title %s | string:none" % rng.choice(names), "alt attrs/title",
+                                       "lang string:${%s}/${attrs/alt}" % last][:rng.choice([2, 3])])
+    if rng.random() < 0.15:
+        tal["omit-tag"] = rng.choice(["not:" + last, "exists:" + last])
+    pool = ["%s | string:no-%s" % (n, n) for n in names] + ["exists:" + n for n in names] + ["%s/%s | string:none" % (names[0], key)]
+    if loopvar:
+        pool += [loopvar + " | string:gone", "repeat/%s/number | string:none" % loopvar]
+    kids = [_probe(rng, pool) for _ in range(rng.choice([1, 2, 3]))]
+    if rng.random() < 0.3:
+        # the chain continues one level further down (definitions spread over nested elements)
+        nm2 = rng.choice(["z9", names[0], last])
+        kids.append(Elem("em", tal={"define": "%s%s %s; q9 %s" % (kind(), nm2, gen_dependent_expr(rng, rng.choice(names), key),
+                                                                 gen_dependent_expr(rng, nm2, key))},
+                         children=[_probe(rng, ["q9 | string:no-q9", "%s | string:no" % nm2])]))
+    e = Elem(rng.choice(["div", "p", "td", "li", "span"]), attrs=[("title", "orig"), ("alt", "a0")], tal=tal, children=kids)
+    order = list(range(len(e.attrs) + len(e.tal)))
+    rng.shuffle(order)
+    e.order = order
+    after = [_probe(rng, ["%s | string:undefined" % n for n in names] + ["exists:" + n for n in names])
+             for _ in range(rng.choice([1, 2]))]
+    if mode == "outer-define":
+        e = Elem("div", tal={"define": "%s%s %s" % (rng.choice(["", "local ", "global "]), n0,
+                                                    rng.choice(["s1", "string:outer", "d1", "m2/0", "d3"]))},
+                 children=[e] + [_probe(rng, ["%s | string:undefined" % n0, "%s/%s | string:none" % (n0, key)])])
+    elif mode == "outer-repeat":
+        e = Elem("ul", tal={"repeat": "%s %s" % (n0, rng.choice(["m1", "m2", "l1", "d3/seq"]))},
+                 children=[e] + [_probe(rng, ["%s/%s | %s | string:none" % (n0, key, n0), "repeat/%s/number" % n0])])
+    return [e] + after
+
+
 def gen_scenario(rng, opts, sc):
+    if rng.random() < 0.2:
+        return gen_define_chain(rng, opts)
     kinds_ = ["callable-path", "same-name-loops", "shadow", "after-loop", "global-in-loop", "false-cond-define",
                        "nested-loops", "indirect", "iterator-loop", "iterator-loop", "attrs-loop", "sequence-kinds", "rawtext-element",
                        "rawtext-element"] + (["subtemplate-structure"] * 2 if opts.structure else []) + (["macro-in-loop"] if (opts.metal and sc.macros) else [])
